@@ -578,7 +578,7 @@ func (x *Exec) evalIndex(st *State, e *ast.IndexExpr, want int) T {
 	switch u := bt.Underlying().(type) {
 	case *types.Slice:
 		x.checkIndex(st, idx, app("slc-len", base.S), e)
-		v := T{S: fmt.Sprintf("(select (slc-arr %s) %s)", base.S, x.slcIdx(base.S, idx.S)), Ty: u.Elem()}
+		v := T{S: slcAt(base.S, idx.S), Ty: u.Elem()}
 		x.assumeElemFacts(st, v)
 		return v
 	case *types.Array:
@@ -647,11 +647,12 @@ func (x *Exec) evalSlice(st *State, e *ast.SliceExpr) T {
 			x.oblige(st, fmt.Sprintf("safe:slice@%d", x.ordinal("slice")), "safe", goal, e)
 			st.assume(goal)
 		}
-		off := fmt.Sprintf("(+ (slc-off %s) %s)", base.S, lo.S)
+		off := x.slcIdx(base.S, lo.S)
+		ln := fmt.Sprintf("(- %s %s)", hi.S, lo.S)
 		if lo.S == "0" {
-			off = app("slc-off", base.S)
+			ln = hi.S
 		}
-		return T{S: fmt.Sprintf("(mk-slc (slc-arr %s) %s (- %s %s))", base.S, off, hi.S, lo.S), Ty: x.typeOf(e)}
+		return T{S: fmt.Sprintf("(mk-slc %s %s %s)", slcArr(base.S), off, ln), Ty: x.typeOf(e)}
 	case *types.Array:
 		length := fmt.Sprint(u.Len())
 		if e.High != nil {
